@@ -7521,7 +7521,7 @@ func init() {
 	})
 	// a wrapper that hides Flush makes the translated stream abort after message_start (every event's flush fails) (C13)
 	registerExtra("C13", func(c *Ctx, r *Report) {
-		r.WithAlias(map[string]string{"C18-R1": "C13-R11", "C18-R14": "C13-R12"}, func() { checkC18(c, r); extraC18FlushNestingClosed(c, r) })
+		r.WithAlias(map[string]string{"C18-R1": "C13-R11", "C18-R14": "C13-R12", "C18-R6": "C13-R14"}, func() { checkC18(c, r); extraC18FlushNestingClosed(c, r) })
 	})
 	// the buffered translation must be handed the JSON value types the translator reads (json.Unmarshal: numbers are
 	// float64) — a streaming decoder with other settings makes usage silently 0/0 while the streamed path is right (C13)
@@ -8587,131 +8587,200 @@ func init() {
 }
 
 func extraUnifyFromCurrent(c *Ctx, r *Report, ruleA, ruleB string) {
-	r.Rule(ruleA, "the background unification run (the registry function that hands a listing to ModelUnifier.UnifyModels and is started with `go`) works from the endpoint's CURRENT listing: the listing it was started with reaches UnifyModels only on the path where re-reading the endpoint's listing failed (err != nil). Runs of one endpoint are not ordered; a run that keeps its start-time snapshot under any other condition (the current listing is empty, is shorter, …) lets a late run for an older listing re-attribute models the endpoint has since dropped", 1)
+	r.Rule(ruleA, "the background unification run (the registry function started with `go` that — itself or through its helpers — hands a listing to ModelUnifier.UnifyModels) works from the endpoint's CURRENT listing: the listing it was started with reaches UnifyModels only on the path where re-reading the endpoint's listing failed (err != nil). Runs of one endpoint are not ordered; a run that keeps its start-time snapshot under any other condition (the current listing is empty, is shorter, …) lets a late run for an older listing re-attribute models the endpoint has since dropped", 1)
 	r.Rule(ruleB, "every path of the unified registry's RegisterModels that stored the listing in the base registry and answers nil has started a unification run for it — or skipped the start only because a run is already pending (a LoadOrStore/CompareAndSwap/Swap flag) whose flag that run clears BEFORE it re-reads the endpoint's listing and not in a defer: a listing that arrives while a run is past its read would otherwise never be unified, and the unified catalogue keeps the previous attribution", 1)
 	const owner = "UnifiedMemoryModelRegistry"
-	isReread := func(in ssa.Instruction) bool {
-		cc := getCall(in)
-		if cc == nil {
+	isOwnerMethod := func(f *ssa.Function) bool {
+		return f != nil && f.Parent() == nil && strings.HasSuffix(fnPkgPath(f), pkgRegistry) && f.Signature.Recv() != nil && isNamed(f.Signature.Recv().Type(), pkgRegistry, owner)
+	}
+	isRereadCall := func(cc *ssa.CallCommon) bool {
+		return cc != nil && describeCall(cc).Name == "GetModelsForEndpoint"
+	}
+	// reaches(f, pred): f or a same-type helper it calls (depth 3) contains an instruction satisfying pred
+	var reaches func(f *ssa.Function, pred func(ssa.Instruction) bool, d int) bool
+	reaches = func(f *ssa.Function, pred func(ssa.Instruction) bool, d int) bool {
+		if f == nil || f.Blocks == nil || d == 0 {
 			return false
 		}
-		ci := describeCall(cc)
-		return ci.Name == "GetModelsForEndpoint"
-	}
-	var unifyFns []*ssa.Function
-	for _, f := range c.Funcs {
-		if f.Parent() != nil || !strings.HasSuffix(fnPkgPath(f), pkgRegistry) || f.Signature.Recv() == nil || !isNamed(f.Signature.Recv().Type(), pkgRegistry, owner) {
-			continue
-		}
-		has := false
+		found := false
 		eachInstr(f, func(in ssa.Instruction) {
-			if cc := getCall(in); cc != nil && cc.IsInvoke() && cc.Method.Name() == "UnifyModels" {
-				has = true
+			if found {
+				return
+			}
+			if pred(in) {
+				found = true
+				return
+			}
+			if cc := getCall(in); cc != nil {
+				if sc := cc.StaticCallee(); sc != nil && sc != f && isOwnerMethod(sc) && reaches(sc, pred, d-1) {
+					found = true
+				}
 			}
 		})
-		if has {
-			unifyFns = append(unifyFns, f)
+		return found
+	}
+	isUnifyInvoke := func(in ssa.Instruction) bool {
+		cc := getCall(in)
+		return cc != nil && cc.IsInvoke() && cc.Method.Name() == "UnifyModels"
+	}
+	isRereadInstr := func(in ssa.Instruction) bool {
+		if _, isDefer := in.(*ssa.Defer); isDefer {
+			return false
 		}
+		return isRereadCall(getCall(in))
 	}
-	if len(unifyFns) == 0 {
-		r.Unresolved(ruleA, "the unified registry's function calling ModelUnifier.UnifyModels")
-		r.Unresolved(ruleB, "the unified registry's function calling ModelUnifier.UnifyModels")
-		return
-	}
-	isUnify := map[*ssa.Function]bool{}
-	for _, f := range unifyFns {
-		isUnify[f] = true
-	}
-	// --- rule A ---
+	// the async entries: owner methods started with `go` that reach UnifyModels
 	async := map[*ssa.Function]bool{}
+	anyUnify := false
 	for _, f := range c.Funcs {
+		if isOwnerMethod(f) && reaches(f, isUnifyInvoke, 1) {
+			anyUnify = true
+		}
 		eachInstr(f, func(in ssa.Instruction) {
 			if g, ok := in.(*ssa.Go); ok {
-				if sc := g.Call.StaticCallee(); sc != nil && isUnify[sc] {
+				if sc := g.Call.StaticCallee(); sc != nil && isOwnerMethod(sc) && reaches(sc, isUnifyInvoke, 4) {
 					async[sc] = true
 				}
 			}
 		})
 	}
-	for _, f := range unifyFns {
-		key := fname(f) + ":unifies-current-listing"
-		if !async[f] {
-			r.Triv(ruleA, key, f.Pos(), "the unification run is not started with `go`: it runs in the order of the registrations")
-			continue
-		}
-		var listParam *ssa.Parameter
-		for _, p := range f.Params {
-			if sl, ok := p.Type().Underlying().(*types.Slice); ok && isNamed(deref(sl.Elem()), pkgDomain, "ModelInfo") {
-				listParam = p
+	if !anyUnify {
+		r.Unresolved(ruleA, "the unified registry's function calling ModelUnifier.UnifyModels")
+		r.Unresolved(ruleB, "the unified registry's function calling ModelUnifier.UnifyModels")
+		return
+	}
+	isModelList := func(t types.Type) bool {
+		sl, ok := t.Underlying().(*types.Slice)
+		return ok && isNamed(deref(sl.Elem()), pkgDomain, "ModelInfo")
+	}
+	rereadFailedOn := func(facts []condFact) bool {
+		for _, cf := range normFacts(facts) {
+			bo, ok := cf.Cond.(*ssa.BinOp)
+			if !ok || (bo.Op != token.EQL && bo.Op != token.NEQ) {
+				continue
+			}
+			for _, pr := range [][2]ssa.Value{{bo.X, bo.Y}, {bo.Y, bo.X}} {
+				ex, isEx := pr[0].(*ssa.Extract)
+				if !isEx || !isNilConst(pr[1]) {
+					continue
+				}
+				if call, ok := ex.Tuple.(*ssa.Call); ok && isRereadCall(&call.Call) && (bo.Op == token.NEQ) == cf.True {
+					return true
+				}
 			}
 		}
-		if listParam == nil {
-			r.Triv(ruleA, key, f.Pos(), "the run is not handed a listing: it can only read the current one")
+		return false
+	}
+	// --- rule A ---
+	nA := 0
+	if len(async) == 0 {
+		r.Triv(ruleA, "unification-runs", token.NoPos, "no unification run is started with `go`: runs happen in the order of the registrations")
+	}
+	for _, f := range c.Funcs {
+		if !isOwnerMethod(f) {
 			continue
 		}
-		bad := ""
-		var check func(v ssa.Value, facts []condFact, d int)
-		check = func(v ssa.Value, facts []condFact, d int) {
-			if d == 0 || bad != "" {
+		eachInstr(f, func(in ssa.Instruction) {
+			if !isUnifyInvoke(in) {
 				return
 			}
-			switch x := v.(type) {
-			case *ssa.Phi:
-				for i, e := range x.Edges {
-					if i < len(x.Block().Preds) {
-						check(e, edgeFacts(x.Block().Preds[i], x.Block()), d-1)
-					}
+			cc := getCall(in)
+			for _, a := range cc.Args {
+				if !isModelList(a.Type()) {
+					continue
 				}
-			case *ssa.Parameter:
-				if x != listParam {
-					return
-				}
-				failed := false
-				for _, cf := range normFacts(facts) {
-					bo, ok := cf.Cond.(*ssa.BinOp)
-					if !ok || (bo.Op != token.EQL && bo.Op != token.NEQ) {
-						continue
+				bad := ""
+				seen := map[string]bool{}
+				var trace func(v ssa.Value, g *ssa.Function, failed bool, d int)
+				trace = func(v ssa.Value, g *ssa.Function, failed bool, d int) {
+					if v == nil || d == 0 || bad != "" {
+						return
 					}
-					for _, pr := range [][2]ssa.Value{{bo.X, bo.Y}, {bo.Y, bo.X}} {
-						ex, isEx := pr[0].(*ssa.Extract)
-						if !isEx || !isNilConst(pr[1]) {
-							continue
+					k := fmt.Sprintf("%p/%v", v, failed)
+					if seen[k] {
+						return
+					}
+					seen[k] = true
+					switch x := v.(type) {
+					case *ssa.Phi:
+						for i, e := range x.Edges {
+							ff := failed
+							if i < len(x.Block().Preds) && rereadFailedOn(edgeFacts(x.Block().Preds[i], x.Block())) {
+								ff = true
+							}
+							trace(e, g, ff, d-1)
 						}
-						if call, ok := ex.Tuple.(*ssa.Call); ok && isReread(call) {
-							if (bo.Op == token.NEQ) == cf.True {
-								failed = true
+					case *ssa.Extract:
+						if call, ok := x.Tuple.(*ssa.Call); ok {
+							if sc := call.Call.StaticCallee(); sc != nil && c.inRepo(sc) && sc.Blocks != nil && !isRereadCall(&call.Call) {
+								for _, ret := range returnsOf(sc) {
+									trace(retResult(ret, x.Index), sc, failed || rereadFailedOn(condFacts(ret.Block())), d-1)
+								}
 							}
 						}
+					case *ssa.Call:
+						if sc := x.Call.StaticCallee(); sc != nil && c.inRepo(sc) && sc.Blocks != nil && !isRereadCall(&x.Call) && sc.Signature.Results().Len() == 1 {
+							for _, ret := range returnsOf(sc) {
+								trace(retResult(ret, 0), sc, failed || rereadFailedOn(condFacts(ret.Block())), d-1)
+							}
+						}
+					case *ssa.Parameter:
+						if async[g] {
+							if !failed {
+								bad = "the listing " + cshort(g) + " was started with reaches UnifyModels on a path where the re-read of the endpoint's current listing did not fail"
+							}
+							return
+						}
+						idx := -1
+						for i, p := range g.Params {
+							if p == x {
+								idx = i
+							}
+						}
+						for _, h := range c.Funcs {
+							eachInstr(h, func(in2 ssa.Instruction) {
+								c2 := getCall(in2)
+								if c2 == nil || c2.StaticCallee() != g || idx < 0 || idx >= len(c2.Args) {
+									return
+								}
+								if _, isGo := in2.(*ssa.Go); isGo {
+									return // the start itself: the snapshot handed to the run
+								}
+								trace(c2.Args[idx], h, failed || rereadFailedOn(condFacts(in2.Block())), d-1)
+							})
+						}
 					}
 				}
-				if !failed {
-					bad = "the listing the run was started with reaches UnifyModels on a path where the re-read of the endpoint's current listing did not fail"
+				// does this UnifyModels call belong to an async run at all?
+				belongs := async[f]
+				if !belongs {
+					for af := range async {
+						if reaches(af, func(i ssa.Instruction) bool { return i == in }, 4) {
+							belongs = true
+						}
+					}
 				}
-			}
-		}
-		n := 0
-		eachInstr(f, func(in ssa.Instruction) {
-			cc := getCall(in)
-			if cc == nil || !cc.IsInvoke() || cc.Method.Name() != "UnifyModels" {
-				return
-			}
-			for _, a := range cc.Args {
-				if sl, ok := a.Type().Underlying().(*types.Slice); ok && isNamed(deref(sl.Elem()), pkgDomain, "ModelInfo") {
-					n++
-					check(a, condFacts(in.Block()), 6)
+				if !belongs {
+					continue
+				}
+				nA++
+				key := fname(f) + ":unifies-current-listing"
+				trace(a, f, rereadFailedOn(condFacts(in.Block())), 10)
+				if bad != "" {
+					r.Bad(ruleA, key, in.Pos(), bad+": a late run for an older listing undoes a newer (for instance empty) one — models the endpoint no longer lists are attributed to it again")
+				} else {
+					r.OK(ruleA, key, in.Pos(), "the start-time snapshot is used only when the current listing cannot be read")
 				}
 			}
 		})
-		if bad != "" {
-			r.Bad(ruleA, key, f.Pos(), bad+": a late run for an older listing undoes a newer (for instance empty) one — models the endpoint no longer lists are attributed to it again")
-		} else if n > 0 {
-			r.OK(ruleA, key, f.Pos(), "the start-time snapshot is used only when the current listing cannot be read")
-		}
+	}
+	if len(async) > 0 && nA == 0 {
+		r.Undecided(ruleA, "unification-runs", token.NoPos, "the listing handed to UnifyModels in the background run was not found")
 	}
 	// --- rule B ---
 	nB := 0
 	for _, f := range c.Funcs {
-		if f.Parent() != nil || !strings.HasSuffix(fnPkgPath(f), pkgRegistry) || f.Signature.Recv() == nil || !isNamed(f.Signature.Recv().Type(), pkgRegistry, owner) {
+		if !isOwnerMethod(f) {
 			continue
 		}
 		var base ssa.Instruction
@@ -8722,7 +8791,7 @@ func extraUnifyFromCurrent(c *Ctx, r *Report, ruleA, ruleB string) {
 				return
 			}
 			if sc := cc.StaticCallee(); sc != nil {
-				if isUnify[sc] {
+				if isOwnerMethod(sc) && sc != f && reaches(sc, isUnifyInvoke, 4) {
 					starts = append(starts, in)
 				}
 				if sc.Name() == "RegisterModels" && sc.Signature.Recv() != nil && isNamed(sc.Signature.Recv().Type(), pkgRegistry, "MemoryModelRegistry") {
@@ -8757,6 +8826,20 @@ func extraUnifyFromCurrent(c *Ctx, r *Report, ruleA, ruleB string) {
 			continue
 		}
 		// the skip is acceptable only as a pending-run flag that the run clears before its re-read
+		fieldOfRecv := func(recv ssa.Value) *types.Var {
+			for d := 0; d < 3 && recv != nil; d++ {
+				if fa, ok := recv.(*ssa.FieldAddr); ok {
+					_, fld, _ := fieldOf(fa)
+					return fld
+				}
+				if u, ok := recv.(*ssa.UnOp); ok {
+					recv = u.X
+				} else {
+					break
+				}
+			}
+			return nil
+		}
 		var flagField *types.Var
 		for _, cf := range normFacts(condFacts(starts[0].Block())) {
 			v := cf.Cond
@@ -8771,26 +8854,31 @@ func extraUnifyFromCurrent(c *Ctx, r *Report, ruleA, ruleB string) {
 			if ci.Name != "LoadOrStore" && ci.Name != "CompareAndSwap" && ci.Name != "Swap" {
 				continue
 			}
-			recv := call.Call.Args[0]
-			for d := 0; d < 3 && recv != nil; d++ {
-				if fa, ok := recv.(*ssa.FieldAddr); ok {
-					_, flagField, _ = fieldOf(fa)
-					break
-				}
-				if u, ok := recv.(*ssa.UnOp); ok {
-					recv = u.X
-				} else {
-					break
-				}
+			if fld := fieldOfRecv(call.Call.Args[0]); fld != nil {
+				flagField = fld
 			}
 		}
 		cleared := false
 		if flagField != nil {
-			for uf := range isUnify {
+			for _, st := range starts {
+				uf := getCall(st).StaticCallee()
+				// the point of the run where the listing is (re-)read: the call itself or the helper containing it
 				var reread ssa.Instruction
 				eachInstr(uf, func(in ssa.Instruction) {
-					if _, isCall := in.(*ssa.Call); isCall && isReread(in) && reread == nil {
+					if reread != nil {
+						return
+					}
+					if isRereadInstr(in) {
 						reread = in
+						return
+					}
+					if cc := getCall(in); cc != nil {
+						if _, isDefer := in.(*ssa.Defer); isDefer {
+							return
+						}
+						if sc := cc.StaticCallee(); sc != nil && isOwnerMethod(sc) && reaches(sc, isRereadInstr, 3) {
+							reread = in
+						}
 					}
 				})
 				eachInstr(uf, func(in ssa.Instruction) {
@@ -8802,19 +8890,8 @@ func extraUnifyFromCurrent(c *Ctx, r *Report, ruleA, ruleB string) {
 					if ci.Name != "Delete" && ci.Name != "Store" && ci.Name != "Swap" && ci.Name != "CompareAndSwap" && ci.Name != "LoadAndDelete" {
 						return
 					}
-					recv := call.Call.Args[0]
-					for d := 0; d < 3 && recv != nil; d++ {
-						if fa, ok := recv.(*ssa.FieldAddr); ok {
-							if _, fld, _ := fieldOf(fa); fld == flagField && instrDominates(in, reread) {
-								cleared = true
-							}
-							break
-						}
-						if u, ok := recv.(*ssa.UnOp); ok {
-							recv = u.X
-						} else {
-							break
-						}
+					if fieldOfRecv(call.Call.Args[0]) == flagField && instrDominates(in, reread) {
+						cleared = true
 					}
 				})
 			}
@@ -8851,4 +8928,612 @@ func init() {
 	registerExtra("C10", func(c *Ctx, r *Report) {
 		r.WithAlias(map[string]string{"C09-R5": "C10-R18"}, func() { checkC09(c, r) })
 	})
+}
+
+// ---------- C12-R13: the translated request is serialised without loss ----------
+func init() { registerExtra("C12", extraC12LosslessSerialiser) }
+
+func extraC12LosslessSerialiser(c *Ctx, r *Report) {
+	r.Rule("C12-R13", "the handlers, translator and proxy packages never serialise with a json-iterator configuration that shortens numbers: no reference to jsoniter.ConfigFastest and no jsoniter.Config with MarshalFloatWith6Digits set (both write floats with at most six fractional digits — temperature 0.123456789 would reach the backend as 0.123457, top_p 0.9999999 as 1, a tool schema's 1e-7 as 0). encoding/json and jsoniter's standard-library-compatible configuration print the shortest exact representation", 0)
+	inScope := func(pp string) bool {
+		return strings.HasSuffix(pp, pkgHandlers) || strings.Contains(pp, "/adapter/translator") || strings.Contains(pp, "/adapter/proxy") || strings.Contains(pp, "/adapter/inspector")
+	}
+	n := 0
+	scanned := map[*ssa.Function]bool{}
+	scan := func(f *ssa.Function) {
+		if scanned[f] {
+			return
+		}
+		scanned[f] = true
+		eachInstr(f, func(in ssa.Instruction) {
+			for _, op := range in.Operands(nil) {
+				if *op == nil {
+					continue
+				}
+				if g, ok := (*op).(*ssa.Global); ok && g.Pkg != nil && strings.HasSuffix(g.Pkg.Pkg.Path(), "json-iterator/go") && g.Name() == "ConfigFastest" {
+					n++
+					r.Bad("C12-R13", fname(f)+":uses-ConfigFastest", in.Pos(), "jsoniter.ConfigFastest is used here: it marshals float64 with six fractional digits, so sampling parameters and numeric limits in tool schemas reach the backend rounded — not the values the client sent")
+				}
+			}
+			if st, ok := in.(*ssa.Store); ok {
+				if fa, ok := st.Addr.(*ssa.FieldAddr); ok {
+					if o, fld, ok := fieldOf(fa); ok && fld.Name() == "MarshalFloatWith6Digits" {
+						if nm, ok := deref(o).(*types.Named); ok && nm.Obj().Pkg() != nil && strings.HasSuffix(nm.Obj().Pkg().Path(), "json-iterator/go") {
+							if k, isK := st.Val.(*ssa.Const); !isK || (k.Value != nil && k.Value.Kind() == constant.Bool && constant.BoolVal(k.Value)) {
+								n++
+								r.Bad("C12-R13", fname(f)+":MarshalFloatWith6Digits", in.Pos(), "a jsoniter configuration with MarshalFloatWith6Digits is built here: floats are written rounded to six fractional digits")
+							}
+						}
+					}
+				}
+			}
+		})
+	}
+	for _, f := range c.Funcs {
+		if inScope(fnPkgPath(f)) {
+			scan(f)
+		}
+	}
+	for _, p := range c.Prog.AllPackages() {
+		if p.Pkg != nil && inScope(p.Pkg.Path()) {
+			if init := p.Func("init"); init != nil && init.Blocks != nil {
+				scan(init)
+			}
+		}
+	}
+	if n == 0 {
+		r.Triv("C12-R13", "lossy-serialisers", token.NoPos, "no number-shortening serialiser configuration is referenced on the request path")
+	}
+	addMutants(Mutant{Prop: "C12", Name: "translated-body-marshalled-with-ConfigFastest", File: "internal/app/handlers/handler_translation.go", Rule: "C12-R13",
+		Old: "	openaiBody, err := json.Marshal(transformedReq.OpenAIRequest)\n", New: "	openaiBody, err := jsoniter.ConfigFastest.Marshal(transformedReq.OpenAIRequest)\n",
+		Edits: []Edit{{"internal/app/handlers/handler_translation.go", "	\"time\"\n", "	\"time\"\n\n	jsoniter \"github.com/json-iterator/go\"\n"}}})
+}
+
+// ---------- C12-R14: strictness reaches every level of the decoded request ----------
+func init() { registerExtra("C12", extraC12StrictAllLevels) }
+
+func extraC12StrictAllLevels(c *Ctx, r *Report) {
+	r.Rule("C12-R14", "no type reachable from the request type that TransformRequest decodes under DisallowUnknownFields implements json.Unmarshaler / encoding.TextUnmarshaler with a decoder of its own that is not strict too: encoding/json hands the raw bytes of such a value to the method, and the outer decoder's DisallowUnknownFields does not apply inside it — unknown keys at that level would be accepted and dropped instead of answered with 400", 3)
+	var root types.Type
+	for _, f := range c.Funcs {
+		if !strings.Contains(fnPkgPath(f), "/adapter/translator/anthropic") || f.Name() != "TransformRequest" {
+			continue
+		}
+		eachInstr(f, func(in ssa.Instruction) {
+			cc := getCall(in)
+			if cc == nil {
+				return
+			}
+			ci := describeCall(cc)
+			if ci.Name == "Decode" && ci.Recv == "Decoder" && ci.Pkg == "encoding/json" && len(cc.Args) == 2 {
+				v := cc.Args[1]
+				if mi, ok := v.(*ssa.MakeInterface); ok {
+					v = mi.X
+				}
+				root = deref(v.Type())
+			}
+		})
+	}
+	if root == nil {
+		r.Unresolved("C12-R14", "the type TransformRequest decodes the request into")
+		return
+	}
+	seen := map[types.Type]bool{}
+	n := 0
+	var walk func(t types.Type, path string)
+	walk = func(t types.Type, path string) {
+		if t == nil || seen[t] {
+			return
+		}
+		seen[t] = true
+		if nm, ok := t.(*types.Named); ok {
+			if nm.Obj().Pkg() != nil && strings.HasPrefix(nm.Obj().Pkg().Path(), modPath) {
+				n++
+				key := "type:" + nm.Obj().Name() + ":no-lenient-unmarshaler"
+				ms := types.NewMethodSet(types.NewPointer(nm))
+				var meth *types.Func
+				for _, name := range []string{"UnmarshalJSON", "UnmarshalText"} {
+					if sel := ms.Lookup(nm.Obj().Pkg(), name); sel != nil {
+						meth, _ = sel.Obj().(*types.Func)
+					}
+				}
+				if meth == nil {
+					r.OK("C12-R14", key, nm.Obj().Pos(), "decoded field by field by the strict outer decoder ("+path+")")
+				} else {
+					strict := false
+					if fn := c.Prog.FuncValue(meth); fn != nil {
+						eachInstrDeep(fn, func(_ *ssa.Function, in ssa.Instruction) {
+							if cc := getCall(in); cc != nil && describeCall(cc).Name == "DisallowUnknownFields" {
+								strict = true
+							}
+						})
+					}
+					if strict {
+						r.OK("C12-R14", key, meth.Pos(), "its own decoder rejects unknown fields as well")
+					} else {
+						r.Bad("C12-R14", key, meth.Pos(), "type "+nm.Obj().Name()+" ("+path+") decodes itself ("+meth.Name()+") without DisallowUnknownFields: unknown keys inside it are silently dropped although the request decoder is strict — an invalid request is translated and forwarded instead of being answered with 400")
+					}
+				}
+			}
+			walk(nm.Underlying(), path)
+			return
+		}
+		switch u := t.(type) {
+		case *types.Pointer:
+			walk(u.Elem(), path)
+		case *types.Slice:
+			walk(u.Elem(), path+"[]")
+		case *types.Array:
+			walk(u.Elem(), path+"[]")
+		case *types.Map:
+			walk(u.Elem(), path+"{}")
+		case *types.Struct:
+			for i := 0; i < u.NumFields(); i++ {
+				walk(u.Field(i).Type(), path+"."+u.Field(i).Name())
+			}
+		}
+	}
+	walk(root, "request")
+	addMutants(Mutant{Prop: "C12", Name: "message-decodes-itself-leniently", File: "internal/adapter/translator/anthropic/types.go", Rule: "C12-R14",
+		Old: "// ContentBlock represents different types of content in messages\n", New: "func (m *AnthropicMessage) UnmarshalJSON(data []byte) error {\n	type plain AnthropicMessage\n	var p plain\n	if err := json.Unmarshal(data, &p); err != nil {\n		return err\n	}\n	*m = AnthropicMessage(p)\n	return nil\n}\n\n// ContentBlock represents different types of content in messages\n",
+		Edits: []Edit{{"internal/adapter/translator/anthropic/types.go", "import \"fmt\"\n", "import (\n	\"encoding/json\"\n	\"fmt\"\n)\n"}}})
+}
+
+// ---------- C15-R10: nobody on the request path edits a client's header line in place ----------
+func init() { registerExtra("C15", extraC15NoInPlaceHeaderEdit) }
+
+func extraC15NoInPlaceHeaderEdit(c *Ctx, r *Report) {
+	r.Rule("C15-R10", "outside the proxy packages too (middleware, handlers, security, utilities — everything that sees the inbound request before the engines copy its headers) no code stores into an element of a header value slice (h[k][i] = …) unless that slice provably belongs to a map the code built itself from fresh slices (make + Clone/append-to-nil copies, or Header.Clone()). A 'copy' made with dst[k] = src[k] shares the value slices with the inbound request: masking, trimming or rewriting a value there rewrites the client's own header, and the engines forward the rewritten line", 0)
+	var ownMap func(m ssa.Value, f *ssa.Function, depth int) bool
+	ownMap = func(m ssa.Value, f *ssa.Function, depth int) bool {
+		if m == nil || depth == 0 {
+			return false
+		}
+		switch x := m.(type) {
+		case *ssa.ChangeType:
+			return ownMap(x.X, f, depth)
+		case *ssa.MakeMap:
+			ok := true
+			for _, ref := range *x.Referrers() {
+				var upd *ssa.MapUpdate
+				switch y := ref.(type) {
+				case *ssa.MapUpdate:
+					upd = y
+				case *ssa.ChangeType:
+					for _, r2 := range *y.Referrers() {
+						if u, isU := r2.(*ssa.MapUpdate); isU && !freshSlice(u.Value, 6) {
+							ok = false
+						}
+					}
+				}
+				if upd != nil && upd.Map == ssa.Value(x) && !freshSlice(upd.Value, 6) {
+					ok = false
+				}
+			}
+			return ok
+		case *ssa.Call:
+			ci := describeCall(&x.Call)
+			if ci.Pkg == "net/http" && ci.Recv == "Header" && ci.Name == "Clone" {
+				return true
+			}
+			if ci.Pkg == "maps" && ci.Name == "Clone" {
+				return false // shallow
+			}
+			if sc := x.Call.StaticCallee(); sc != nil && c.inRepo(sc) && sc.Blocks != nil && sc.Signature.Results().Len() == 1 {
+				for _, ret := range returnsOf(sc) {
+					if !ownMap(retResult(ret, 0), sc, depth-1) {
+						return false
+					}
+				}
+				return true
+			}
+			return false
+		case *ssa.Phi:
+			for _, e := range x.Edges {
+				if !ownMap(e, f, depth-1) {
+					return false
+				}
+			}
+			return true
+		case *ssa.Parameter:
+			idx := -1
+			for i, p := range f.Params {
+				if p == x {
+					idx = i
+				}
+			}
+			sites := 0
+			all := true
+			for _, g := range c.Funcs {
+				eachInstr(g, func(in ssa.Instruction) {
+					cc := getCall(in)
+					if cc == nil || cc.StaticCallee() != f || idx < 0 || idx >= len(cc.Args) {
+						return
+					}
+					sites++
+					if !ownMap(cc.Args[idx], g, depth-1) {
+						all = false
+					}
+				})
+			}
+			return sites > 0 && all
+		}
+		return false
+	}
+	n := 0
+	for _, f := range c.Funcs {
+		pp := fnPkgPath(f)
+		if !c.inRepo(f) || strings.Contains(pp, "/adapter/proxy/") { // the proxy packages: C15-R5
+			continue
+		}
+		eachInstr(f, func(in ssa.Instruction) {
+			st, ok := in.(*ssa.Store)
+			if !ok {
+				return
+			}
+			ia, ok := st.Addr.(*ssa.IndexAddr)
+			if !ok {
+				return
+			}
+			// the slice: a lookup in / range over a header-typed map
+			var m ssa.Value
+			v := ia.X
+			for d := 0; d < 5 && v != nil && m == nil; d++ {
+				switch x := v.(type) {
+				case *ssa.Lookup:
+					if isNamed(x.X.Type(), "net/http", "Header") || strings.HasSuffix(x.X.Type().Underlying().String(), "map[string][]string") {
+						m = x.X
+					}
+					v = nil
+				case *ssa.Extract:
+					if nx, ok := x.Tuple.(*ssa.Next); ok && x.Index == 2 {
+						if rg, ok := nx.Iter.(*ssa.Range); ok && (isNamed(rg.X.Type(), "net/http", "Header") || strings.HasSuffix(rg.X.Type().Underlying().String(), "map[string][]string")) {
+							m = rg.X
+						}
+						v = nil
+					} else {
+						v = x.Tuple
+					}
+				case *ssa.Slice:
+					v = x.X
+				case *ssa.Call:
+					ci := describeCall(&x.Call)
+					if ci.Pkg == "net/http" && ci.Recv == "Header" && ci.Name == "Values" && len(x.Call.Args) > 0 {
+						m = x.Call.Args[0]
+					}
+					v = nil
+				default:
+					v = nil
+				}
+			}
+			if m == nil {
+				return
+			}
+			n++
+			key := fname(f) + ":in-place-header-value-write"
+			if ownMap(m, f, 3) {
+				r.OK("C15-R10", key, in.Pos(), "the edited value slices belong to a map built here from fresh copies")
+			} else {
+				r.Bad("C15-R10", key, in.Pos(), "a header value is overwritten in place through a slice that may be shared with the inbound request's Header (a map filled with dst[k] = src[k], or the request's own map): the client's header line is rewritten before the engines copy it, and the backend receives the rewritten value")
+			}
+		})
+	}
+	if n == 0 {
+		r.Triv("C15-R10", "in-place-header-writes", token.NoPos, "no store through a header value slice outside the proxy packages")
+	}
+	addMutants(Mutant{Prop: "C15", Name: "middleware-masks-shared-header-slices", File: "internal/app/middleware/logging.go", Rule: "C15-R10",
+		Old: "// responseWriter wraps http.ResponseWriter to capture response size and status\n", New: "func maskedHeaders(headers http.Header) http.Header {\n	safe := make(http.Header, len(headers))\n	for name, values := range headers {\n		safe[name] = values\n		if strings.Contains(strings.ToLower(name), \"key\") {\n			for i := range safe[name] {\n				safe[name][i] = \"[REDACTED]\"\n			}\n		}\n	}\n	return safe\n}\n\nvar _ = maskedHeaders\n\n// responseWriter wraps http.ResponseWriter to capture response size and status\n"})
+}
+
+// ---------- C18-R16: a reused stall timer is re-armed before every read ----------
+func init() { registerExtra("C18", extraC18TimerRearmedEveryRead) }
+
+func extraC18TimerRearmedEveryRead(c *Ctx, r *Report) {
+	r.Rule("C18-R16", "where a proxy engine keeps ONE stall timer for a whole response and re-arms it with Reset (instead of creating a timer per read), every trip round the relay loop from one body read to the next passes that Reset: a Reset that is skipped on some iterations (only after half the window, only every n-th read, only while nothing was read yet) leaves the previous deadline running, so a backend that pauses for less than the read timeout after a burst of chunks is cut off mid-stream", 1)
+	readsBody := map[*ssa.Function]bool{}
+	var reads func(g *ssa.Function, d int) bool
+	reads = func(g *ssa.Function, d int) bool {
+		if g == nil || g.Blocks == nil || d == 0 {
+			return false
+		}
+		if v, ok := readsBody[g]; ok {
+			return v
+		}
+		readsBody[g] = false
+		found := false
+		eachInstr(g, func(in ssa.Instruction) {
+			cc := getCall(in)
+			if cc == nil || found {
+				return
+			}
+			if cc.IsInvoke() && cc.Method.Name() == "Read" {
+				found = true
+				return
+			}
+			if sc := cc.StaticCallee(); sc != nil && c.inRepo(sc) && reads(sc, d-1) {
+				found = true
+			}
+		})
+		readsBody[g] = found
+		return found
+	}
+	n := 0
+	for _, f := range c.Funcs {
+		if !strings.Contains(fnPkgPath(f), "/adapter/proxy/") {
+			continue
+		}
+		// timers of f that are Reset in f
+		timers := map[ssa.Value][]ssa.Instruction{}
+		eachInstr(f, func(in ssa.Instruction) {
+			cc := getCall(in)
+			if cc == nil || cc.IsInvoke() || len(cc.Args) == 0 {
+				return
+			}
+			ci := describeCall(cc)
+			if ci.Pkg == "time" && ci.Recv == "Timer" && ci.Name == "Reset" {
+				timers[cc.Args[0]] = append(timers[cc.Args[0]], in)
+			}
+		})
+		for t, resets := range timers {
+			tc, ok := t.(*ssa.Call)
+			if !ok || !isCall(tc, "time", "", "NewTimer") {
+				continue
+			}
+			isRearm := func(in ssa.Instruction) bool {
+				for _, x := range resets {
+					if x == in {
+						return true
+					}
+				}
+				return false
+			}
+			var readSites []ssa.Instruction
+			eachInstr(f, func(in ssa.Instruction) {
+				cc := getCall(in)
+				if cc == nil {
+					return
+				}
+				if _, isDefer := in.(*ssa.Defer); isDefer {
+					return
+				}
+				isRead := cc.IsInvoke() && cc.Method.Name() == "Read"
+				if sc := cc.StaticCallee(); sc != nil && c.inRepo(sc) && reads(sc, 3) {
+					isRead = true
+				}
+				if isRead && reachAvoiding(in, in, nil) { // in a loop
+					readSites = append(readSites, in)
+				}
+			})
+			for _, rs := range readSites {
+				n++
+				key := fname(f) + ":stall-timer-rearmed-each-read"
+				if reachAvoiding(rs, rs, isRearm) {
+					r.Bad("C18-R16", key, rs.Pos(), "the relay loop can go from one body read to the next without re-arming the stall timer (the Reset is conditional or outside the cycle): the deadline armed several reads ago keeps running, and a pause shorter than the read timeout — after a burst of activity — aborts the stream")
+				} else {
+					r.OK("C18-R16", key, rs.Pos(), "every trip from read to read passes the timer's Reset")
+				}
+			}
+		}
+	}
+	if n == 0 {
+		r.Triv("C18-R16", "reused-stall-timers", token.NoPos, "no engine re-arms one stall timer across reads")
+	}
+	addMutants(Mutant{Prop: "C18", Name: "stall-timer-rearmed-only-before-first-byte", File: "internal/adapter/proxy/olla/service.go", Rule: "C18-R16",
+		Old: "		readDeadline.Reset(s.configuration.GetReadTimeout())\n", New: "		if state.totalBytes == 0 {\n			readDeadline.Reset(s.configuration.GetReadTimeout())\n		}\n"})
+}
+
+// ---------- C20-R17: a constant index into a decoded array is taken only when the array is known to be that long ----------
+func init() { registerExtra("C20", extraC20ConstIndexGuarded) }
+
+// lenAtLeast: a fact dominating block b proves len(coll) >= n.
+func lenAtLeast(coll ssa.Value, n int64, b *ssa.BasicBlock) bool {
+	isLen := func(v ssa.Value) bool {
+		call, ok := stripConv(v).(*ssa.Call)
+		if !ok {
+			return false
+		}
+		bi, ok := call.Call.Value.(*ssa.Builtin)
+		return ok && bi.Name() == "len" && len(call.Call.Args) == 1 && (call.Call.Args[0] == coll || sameValue(call.Call.Args[0], coll))
+	}
+	for _, cf := range normFacts(condFacts(b)) {
+		bo, ok := cf.Cond.(*ssa.BinOp)
+		if !ok {
+			continue
+		}
+		op := bo.Op
+		var k int64
+		switch {
+		case isLen(bo.X):
+			kv, isK := constInt(bo.Y)
+			if !isK {
+				continue
+			}
+			k = kv
+		case isLen(bo.Y):
+			kv, isK := constInt(bo.X)
+			if !isK {
+				continue
+			}
+			k = kv
+			switch op { // mirror to: len op k
+			case token.LSS:
+				op = token.GTR
+			case token.LEQ:
+				op = token.GEQ
+			case token.GTR:
+				op = token.LSS
+			case token.GEQ:
+				op = token.LEQ
+			}
+		default:
+			continue
+		}
+		var atLeast int64 = -1
+		switch {
+		case op == token.GTR && cf.True:
+			atLeast = k + 1
+		case op == token.GEQ && cf.True:
+			atLeast = k
+		case op == token.LSS && !cf.True:
+			atLeast = k
+		case op == token.LEQ && !cf.True:
+			atLeast = k + 1
+		case op == token.EQL && cf.True:
+			atLeast = k
+		case op == token.EQL && !cf.True && k == 0:
+			atLeast = 1
+		case op == token.NEQ && cf.True && k == 0:
+			atLeast = 1
+		case op == token.NEQ && !cf.True:
+			atLeast = k
+		}
+		if atLeast >= n {
+			return true
+		}
+	}
+	return false
+}
+
+func extraC20ConstIndexGuarded(c *Ctx, r *Report) {
+	r.Rule("C20-R17", "in the functions that consume backend-produced data, an element taken at a constant position (x[0], x[1]) from a slice that came out of decoded data (a []interface{} / []T obtained by type assertion from a decoded document) is control-dependent on a length test proving the slice has that many elements: `\"choices\": []` is valid JSON, and an unguarded choices[0] panics the stream translator", 2)
+	n := 0
+	for _, f := range c.Funcs {
+		if !inConsumerScope(f) {
+			continue
+		}
+		eachInstr(f, func(in ssa.Instruction) {
+			var idx, coll ssa.Value
+			switch x := in.(type) {
+			case *ssa.IndexAddr:
+				idx, coll = x.Index, x.X
+			case *ssa.Index:
+				idx, coll = x.Index, x.X
+			default:
+				return
+			}
+			k, isK := constInt(idx)
+			if !isK {
+				return
+			}
+			if _, isSlice := coll.Type().Underlying().(*types.Slice); !isSlice {
+				return
+			}
+			// provenance: a type assertion (possibly the comma-ok form, possibly through a phi)
+			fromAssert := false
+			var walk func(v ssa.Value, d int)
+			walk = func(v ssa.Value, d int) {
+				if v == nil || d == 0 || fromAssert {
+					return
+				}
+				switch y := v.(type) {
+				case *ssa.TypeAssert:
+					fromAssert = true
+				case *ssa.Extract:
+					walk(y.Tuple, d-1)
+				case *ssa.Phi:
+					for _, e := range y.Edges {
+						walk(e, d-1)
+					}
+				case *ssa.ChangeType:
+					walk(y.X, d-1)
+				}
+			}
+			walk(coll, 4)
+			if !fromAssert {
+				return
+			}
+			n++
+			key := fmt.Sprintf("%s:const-index[%d]-of-decoded-array", fname(f), k)
+			if lenAtLeast(coll, k+1, in.Block()) {
+				r.OK("C20-R17", key, in.Pos(), "dominated by a length test")
+			} else {
+				r.Bad("C20-R17", key, in.Pos(), fmt.Sprintf("element [%d] of an array decoded from backend data is taken without a dominating test that the array has %d element(s): an empty (or shorter) array in a backend chunk panics with index out of range", k, k+1))
+			}
+		})
+	}
+	if n == 0 {
+		r.Triv("C20-R17", "const-index-into-decoded-arrays", token.NoPos, "no constant index into a decoded array in the consumer functions")
+	}
+	addMutants(Mutant{Prop: "C20", Name: "stream-chunk-choices-not-length-checked", File: "internal/adapter/translator/anthropic/streaming.go", Rule: "C20-R17",
+		Old: "	choices, ok := chunk[\"choices\"].([]interface{})\n	if !ok || len(choices) == 0 {\n		return nil\n	}\n", New: "	choices, ok := chunk[\"choices\"].([]interface{})\n	if !ok {\n		return nil\n	}\n"})
+}
+
+// ---------- C16-R12: nobody rewrites the authority of a URL ----------
+func init() { registerExtra("C16", extraC16NoAuthorityRewrite) }
+
+func extraC16NoAuthorityRewrite(c *Ctx, r *Report) {
+	r.Rule("C16-R12", "no code of the repository assigns Scheme, Host, User or Opaque of a net/url.URL that it did not build field by field itself (a composite literal): the endpoint URLs come from configuration through url.Parse and reach the upstream request, the health check and the model listing with the scheme, host and port as configured. A 'canonicalisation' (u.Host = strings.ToLower(u.Hostname()) — which drops the port), a scheme upgrade or a host override changes where Olla connects", 0)
+	n := 0
+	for _, f := range c.Funcs {
+		if !c.inRepo(f) {
+			continue
+		}
+		eachInstr(f, func(in ssa.Instruction) {
+			st, ok := in.(*ssa.Store)
+			if !ok {
+				return
+			}
+			fa, ok := st.Addr.(*ssa.FieldAddr)
+			if !ok {
+				return
+			}
+			which := ""
+			for _, fld := range []string{"Scheme", "Host", "User", "Opaque"} {
+				if isField(fa, "net/url", "URL", fld) {
+					which = fld
+				}
+			}
+			if which == "" {
+				return
+			}
+			// a literal: a local Alloc that is never assigned as a whole
+			if al, isAl := fa.X.(*ssa.Alloc); isAl {
+				whole := false
+				for _, ref := range *al.Referrers() {
+					if s2, ok := ref.(*ssa.Store); ok && s2.Addr == ssa.Value(al) {
+						whole = true
+					}
+				}
+				if !whole {
+					return
+				}
+			}
+			// case-folding the same field in place keeps host and port (host names are case-insensitive)
+			if call, ok := st.Val.(*ssa.Call); ok && which == "Host" {
+				if ci := describeCall(&call.Call); ci.Pkg == "strings" && ci.Name == "ToLower" && len(call.Call.Args) == 1 {
+					if ld, ok := call.Call.Args[0].(*ssa.UnOp); ok {
+						if fa2, ok := ld.X.(*ssa.FieldAddr); ok && isField(fa2, "net/url", "URL", "Host") && (fa2.X == fa.X || sameValue(fa2.X, fa.X)) {
+							n++
+							r.OK("C16-R12", fname(f)+":URL.Host=lower(Host)", in.Pos(), "case-folds the whole authority (host and port) in place")
+							return
+						}
+					}
+				}
+			}
+			n++
+			r.Bad("C16-R12", fname(f)+":URL."+which+"=", in.Pos(), "the "+which+" of a parsed / copied URL is overwritten: the connection goes to a different scheme, host or port than the endpoint was configured with (url.Hostname() has no port; a lower-cased or rebuilt Host silently loses it)")
+		})
+	}
+	if n == 0 {
+		r.Triv("C16-R12", "authority-stores", token.NoPos, "no store to Scheme/Host/User/Opaque of a parsed or copied URL")
+	}
+	addMutants(Mutant{Prop: "C16", Name: "loader-lowercases-host-dropping-port", File: "internal/adapter/discovery/repository.go", Rule: "C16-R12",
+		Old: "		urlString := endpointURL.String()\n", New: "		endpointURL.Host = strings.ToLower(endpointURL.Hostname())\n		urlString := endpointURL.String()\n",
+		Edits: []Edit{{"internal/adapter/discovery/repository.go", "	\"net/url\"\n", "	\"net/url\"\n	\"strings\"\n"}}})
+}
+
+// wave-6 aliases: clauses that other properties' rules already decide
+func init() {
+	// C17: the size limiter (http.MaxBytesReader) stays in the body chain — a body restored from the bytes read alone
+	// drops it, and an over-limit chunked body reaches the backend truncated instead of being refused
+	registerExtra("C17", func(c *Ctx, r *Report) {
+		r.WithAlias(map[string]string{"C01-R6": "C17-R12"}, func() { checkC01(c, r) })
+	})
+	// C19: a request is recorded once per translator mode: once the passthrough path has recorded and dispatched, the
+	// handler returns instead of falling through to the translation path (which records again)
+	registerExtra("C19", func(c *Ctx, r *Report) {
+		r.WithAlias(map[string]string{"C14-R2": "C19-R15"}, func() { checkC14(c, r) })
+	})
+	// C20: an empty (or all-nameless) listing leaves the catalogue consistent: it is unified like any other listing
+	registerExtra("C20", func(c *Ctx, r *Report) { extraUnifyFromCurrent(c, r, "C20-R19", "C20-R18") })
 }
